@@ -201,4 +201,28 @@ v("c04-n-stop-ignored-completes", "C04", "none", [(CKP, "\t\tcase <-stopc:\n\t\t
 v("c04-n-log-reorder-around-swap", "C04", "none", [(SNAP, "\told := s.fsm.pebble.Swap(db)\n\ts.fsm.metrics.applied.Store(idx)\n\ts.fsm.log.Info(\"snapshot recovery finished\")", "\ts.fsm.log.Info(\"snapshot recovery finishing\")\n\told := s.fsm.pebble.Swap(db)\n\ts.fsm.metrics.applied.Store(idx)")])
 v("c04-n-mkdir-via-helper-var", "C04", "none", [(FSM, "\t\tif err := p.fs.MkdirAll(dbdir, 0o755); err != nil {\n\t\t\treturn 0, err\n\t\t}", "\t\terr := p.fs.MkdirAll(dbdir, 0o755)\n\t\tif err != nil {\n\t\t\treturn 0, err\n\t\t}")])
 
+# ---------------- C06 ----------------
+LR = "storage/logreader/logreader.go"; CACHE = "storage/logreader/cache.go"; EVT = "storage/engine_events.go"
+v("c06-f8-parent", "C06", "C06.e", [(LR, "return entries[:max(i, 1)]", "return entries[:i]")], "parent of fix F8")
+v("c06-next-is-last-index", "C06", "C06.a", [(REPL, "\t\tnext := entries[len(entries)-1].Index + 1\n", "\t\tnext := entries[len(entries)-1].Index\n")])
+v("c06-next-plus-two", "C06", "C06.a", [(REPL, "\t\tnext := entries[len(entries)-1].Index + 1\n", "\t\tnext := entries[len(entries)-1].Index + 2\n")])
+v("c06-next-from-first-entry", "C06", "C06.a", [(REPL, "\t\tnext := entries[len(entries)-1].Index + 1\n", "\t\tnext := entries[0].Index + uint64(len(entries)) + 1\n")])
+v("c06-last-index-no-plus-one", "C06", "C06.a", [(REPL, "LastIndex: appliedIndex.Index + 1}", "LastIndex: appliedIndex.Index}")])
+v("c06-behind-le", "C06", "C06.a", [(REPL, "\tif appliedIndex.Index+1 < req.LeaderIndex {", "\tif appliedIndex.Index+1 <= req.LeaderIndex {")])
+v("c06-drop-non-encoded", "C06", "C06.c", [(REPL, "\t\t\tif cmd, err := entryToCommand(e); err != nil {\n\t\t\t\treturn err\n\t\t\t} else {", "\t\t\tif e.Type != raftpb.EncodedEntry {\n\t\t\t\tcontinue\n\t\t\t}\n\t\t\tif cmd, err := entryToCommand(e); err != nil {\n\t\t\t\treturn err\n\t\t\t} else {")])
+v("c06-label-loop-index", "C06", "C06.c", [(REPL, "\t\tfor _, e := range entries {\n\t\t\tif cmd, err := entryToCommand(e); err != nil {\n\t\t\t\treturn err\n\t\t\t} else {\n\t\t\t\tcommands = append(commands, &regattapb.ReplicateCommand{Command: cmd, LeaderIndex: e.Index})", "\t\tfor i, e := range entries {\n\t\t\tif cmd, err := entryToCommand(e); err != nil {\n\t\t\t\treturn err\n\t\t\t} else {\n\t\t\t\tcommands = append(commands, &regattapb.ReplicateCommand{Command: cmd, LeaderIndex: logRange.FirstIndex + uint64(i)})")])
+v("c06-uptodate-le", "C06", "C06.b", [(LR, "\tif rLast+1 == logRange.FirstIndex {", "\tif rLast+1 <= logRange.FirstIndex {")])
+v("c06-behind-le-readlog", "C06", "C06.b", [(LR, "\tif rLast < logRange.FirstIndex {", "\tif rLast <= logRange.FirstIndex {")])
+v("c06-ahead-le", "C06", "C06.b", [(LR, "\tif logRange.FirstIndex < rFirst {", "\tif logRange.FirstIndex <= rFirst {")])
+v("c06-no-uptodate-test", "C06", "C06.b", [(LR, "\tif rLast+1 == logRange.FirstIndex {\n\t\treturn nil, nil\n\t}\n", "")])
+v("c06-handler-swaps-errors", "C06", "C06.b", [(REPL, "\t\tcase errors.Is(err, serrors.ErrLogAhead):\n\t\t\treturn server.Send(repErrUseSnapshot)", "\t\tcase errors.Is(err, serrors.ErrLogAhead):\n\t\t\treturn server.Send(repErrLeaderBehind)")])
+v("c06-put-without-contiguity", "C06", "C06.d", [(LR, "\t\t\tif le[0].Index-1 == sh.largestIndex() {\n\t\t\t\tsh.put(le)\n\t\t\t}", "\t\t\tsh.put(le)")])
+v("c06-put-when-cache-nonempty", "C06", "C06.d", [(LR, "\t\t\tif sh.len() == 0 {\n\t\t\t\tsh.put(le)\n\t\t\t}", "\t\t\tsh.put(le)")])
+v("c06-compaction-not-invalidating", "C06", "C06.d", [(EVT, "\t\t\t\te.engine.LogCache.LogCompacted(ev.ShardID)\n", "")])
+v("c06-invalidate-wrong-shard", "C06", "C06.d", [(EVT, "e.engine.LogCache.NodeDeleted(ev.ShardID)", "e.engine.LogCache.NodeDeleted(ev.ReplicaID)")])
+v("c06-n-behind-flipped", "C06", "none", [(REPL, "\tif appliedIndex.Index+1 < req.LeaderIndex {", "\tif req.LeaderIndex > appliedIndex.Index+1 {")])
+v("c06-n-uptodate-minus-form", "C06", "none", [(LR, "\tif rLast+1 == logRange.FirstIndex {", "\tif logRange.FirstIndex-1 == rLast {")])
+v("c06-n-fixsize-guard", "C06", "none", [(LR, "\t\t\treturn entries[:max(i, 1)]", "\t\t\tif i == 0 {\n\t\t\t\treturn entries[:1]\n\t\t\t}\n\t\t\treturn entries[:i]")])
+v("c06-n-contiguity-plus-form", "C06", "none", [(LR, "\t\t\tif le[0].Index-1 == sh.largestIndex() {", "\t\t\tif le[0].Index == sh.largestIndex()+1 {")])
+
 json.dump(V, sys.stdout, indent=1)
